@@ -365,7 +365,45 @@ func runC32(c *Ctx) {
 			return true
 		})
 		if n == 0 {
-			c.Violate(r1, fi.Name(), fi.Decl.Pos(), "no component-wise prefix test on the sparse directories found")
+			// the matching may live in a same-package helper that receives the directories
+			helperOK := false
+			walkCalls(fi.Decl.Body, true, func(call *ast.CallExpr) {
+				h := p.FuncOf(Callee(info, call))
+				if h == nil || h.Pkg != fi.Pkg || h.Decl.Body == nil {
+					return
+				}
+				passes := false
+				for _, a := range call.Args {
+					if derivesFromDirs(a) {
+						passes = true
+					}
+				}
+				if !passes {
+					return
+				}
+				hinfo := h.Pkg.TypesInfo
+				ast.Inspect(h.Decl.Body, func(x ast.Node) bool {
+					hc, ok := x.(*ast.CallExpr)
+					if !ok {
+						return true
+					}
+					fn := Callee(hinfo, hc)
+					if fn != nil && fn.Pkg() != nil && fn.Pkg().Path() == "strings" && fn.Name() == "HasPrefix" && len(hc.Args) == 2 {
+						if be, isBin := unparen(hc.Args[1]).(*ast.BinaryExpr); isBin && be.Op == token.ADD {
+							if tv := hinfo.Types[be.Y]; tv.Value != nil && tv.Value.ExactString() == `"/"` {
+								helperOK = true
+							}
+						}
+					}
+					return true
+				})
+			})
+			if helperOK {
+				forms++
+				c.Hold(r1, fi.Name()+"->helper:strings.HasPrefix", fi.Decl.Pos(), "a helper matches dir + \"/\" (component-wise)")
+			} else {
+				c.Violate(r1, fi.Name(), fi.Decl.Pos(), "no component-wise prefix test on the sparse directories found")
+			}
 		}
 	}
 	c.Check(forms == len(sites), "sibling-agreement", "sparse-matchers", token.NoPos, "both interpreters of the sparse directory list use the same component-wise form ("+itoa(forms)+"/"+itoa(len(sites))+")")
